@@ -3,6 +3,7 @@
    [changed] says where the rule set changes something (identity level); [subterms], [coherent], [below]
    are the vocabulary for "the very same object", "a new object" and "no old object is modified". *)
 From Oak Require Export Model.Visitor.
+From Oak Require Import Base.Term.
 
 (* ---------- contents: a node with its identities erased ---------- *)
 Fixpoint strip (n : node) : node :=
@@ -114,3 +115,59 @@ Definition universe (ms : methods) (n : node) : list node := flat_map subterms (
 Definition coherent (U : list node) : Prop := forall x y, In x U -> In y U -> addr x = addr y -> x = y.
 (* all existing objects were allocated before b *)
 Definition below (b : nat) (U : list node) : Prop := forall x, In x U -> addr x < b.
+
+(* ---------- generic_visit, field by field (identity level) ----------
+   The children of every child field are visited left to right; a field is rebuilt iff one of its children came
+   back as another object or as None; the node is rebuilt iff one of its fields is. *)
+Definition kfield := (pystr * (kshape * list node))%type.
+
+Fixpoint seq_visit (v : visitfn) (l : list node) (s : vst) : option (vst * option (list result)) :=
+  match l with
+  | [] => Some (s, Some [])
+  | x :: r =>
+    do sr <- v x s;
+    match snd sr with
+    | RErr => Some (fst sr, None)
+    | rx => do sr2 <- seq_visit v r (fst sr); Some (fst sr2, option_map (cons rx) (snd sr2))
+    end
+  end.
+Fixpoint fields_visit (v : visitfn) (ks : list kfield) (s : vst) : option (vst * option (list (list result))) :=
+  match ks with
+  | [] => Some (s, Some [])
+  | k :: r =>
+    do sr <- seq_visit v (snd (snd k)) s;
+    match snd sr with
+    | None => Some (fst sr, None)
+    | Some rs => do sr2 <- fields_visit v r (fst sr); Some (fst sr2, option_map (cons rs) (snd sr2))
+    end
+  end.
+
+Definition not_same (x : node) (r : result) : bool :=
+  match r with RNode y => negb (Nat.eqb (addr y) (addr x)) | _ => true end.
+Definition lmarked (l : list node) (rs : list result) : bool :=
+  existsb (fun p => not_same (fst p) (snd p)) (combine l rs).
+Definition fmarked (k : kfield) (rs : list result) : bool := lmarked (snd (snd k)) rs.
+Definition rkeep (rs : list result) : list node := flat_map (fun r => match r with RNode n => [n] | _ => [] end) rs.
+Definition vnew (sh : kshape) (rs : list result) : kshape * list node :=
+  match sh with
+  | ShMany => (ShMany, rkeep rs)
+  | ShOne => match rkeep rs with [] => (ShNone, []) | l => (ShOne, l) end
+  | ShNone => (ShNone, [])
+  end.
+Definition fnew (k : kfield) (rs : list result) : kfield := (fst k, vnew (fst (snd k)) rs).
+Definition rebuild (ks : list kfield) (rss : list (list result)) : list kfield :=
+  map (fun p => if fmarked (fst p) (snd p) then fnew (fst p) (snd p) else fst p) (combine ks rss).
+Definition any_marked (ks : list kfield) (rss : list (list result)) : bool :=
+  existsb (fun p => fmarked (fst p) (snd p)) (combine ks rss).
+
+(* generic_visit, field by field *)
+Definition gv_tr (v : visitfn) (n : node) (s : vst) : option (vst * result) :=
+  do r <- fields_visit v (nkids n) s;
+  match snd r with
+  | None => Some (fst r, RErr)
+  | Some rss =>
+    if any_marked (nkids n) rss
+    then Some (bump (fst r), RNode (Node (next (fst r)) (cls n) (norigin n) (nprops n) (rebuild (nkids n) rss)))
+    else Some (fst r, RNode n)
+  end.
+
